@@ -5,16 +5,17 @@
    C16_sig_block_is_ref); PairExpander.Expand of the block's stage replaces exactly the block (C16_block_stage); the
    engine's table model yields the first-appearance lists of the table (C16_model_first_appearance); str.replace of a tag
    acts segment-wise (C16_replace_segmentwise); text outside blocks, letter counter.
-   STILL PARTIAL -- FULL STATEMENT not proved:  forall m dict t, in_grammar16 t = true -> wf_elements16 t (elements_of_model m)
-   = true -> engine16 m dict t = Some (ref16 (elements_of_model m) t)   (the composition of the 15 stages over a template with
-   several blocks of several kinds, followed by the user-tag / FOR / write phases on the tag-free result), and the nested
-   per-state / per-event / per-transition blocks with their alternative text (modelled in Model/EngineSM.v, tied by
-   differential execution, observed against the Python reference only).  The check compares the real output with ref16 on
-   every generated template of in_grammar16. *)
+   FULL as well: the whole pipeline on a template with several blocks of several kinds (C16_engine_is_ref,
+   C16_engine_is_ref_table): all 15 expander stages in source order, then user tags / FOR / write.
+   STILL PARTIAL: the nested per-state / per-event / per-transition blocks with their alternative text are not part of the
+   template syntax of Spec/RefExpand16.v (modelled in Model/EngineSM.v, tied by differential execution, observed against the
+   Python reference only); signature / member / documentation / attribute tags are not modelled.  block_wf keeps three
+   conditions that are evaluated per (template, table): substituted names carry no '<' '>', no expanded copy is whitespace
+   only, none contains the name of an unmodelled tag. *)
 From Coq Require Import String List Bool Arith.
 From KV Require Import Lib.Str Lib.StrOps Lib.ODict Gen.Tags Gen.Pipeline Model.Engine Model.EngineSM Model.EngineDomain Spec.RefExpand
                        Model.EngineDomain16 Spec.RefExpand16 Lib.TableDef Model.TTable
-                       Proofs.EnginePipe Proofs.EngineC16 Proofs.EngineRepl Proofs.EngineBlock Proofs.EngineTT.
+                       Proofs.EnginePipe Proofs.EngineC16 Proofs.EngineRepl Proofs.EngineBlock Proofs.EngineTT Proofs.EngineWhole16.
 Import ListNotations.
 Open Scope string_scope.
 Open Scope list_scope.
@@ -87,11 +88,11 @@ Print Assumptions C16_sig_block_is_ref.
 (* PairExpander.Expand with the stage tags of the block's kind (the stage is in the list read from the source, with the
    inner function used here: stage_in_source): text before the block is kept, the block is replaced by the reference block,
    the expander continues on the rest from its initial state (so several blocks of a kind, in any position, compose). *)
-Theorem C16_block_stage : forall k items pre body rest,
+Theorem C16_block_stage : forall k ib ie items pre body rest,
   forallb (not_be (fst (stage_tags k)) (snd (stage_tags k))) pre = true ->
   forallb (not_be (fst (stage_tags k)) (snd (stage_tags k))) (map render_line body) = true ->
-  forallb (body_line_ok (keys_of k)) body = true -> block_wf (table_of_kind k) items body = true ->
-  pair_expand (fst (stage_tags k)) (snd (stage_tags k)) (inner_of_kind k items) (pre ++ render_item16 (Block k body) ++ rest)
+  item16_ok (Block k ib ie body) = true -> block_wf (table_of_kind k) items body = true ->
+  pair_expand (fst (stage_tags k)) (snd (stage_tags k)) (inner_of_kind k items) (pre ++ render_item16 (Block k ib ie body) ++ rest)
   = option_map (fun t => pre ++ ref_block (table_of_kind k) items body ++ t)
                (pair_go (fst (stage_tags k)) (snd (stage_tags k)) (inner_of_kind k items) false [] None rest).
 Proof. exact block_stage. Qed.
@@ -114,6 +115,29 @@ Theorem C16_model_first_appearance : forall tt structs protos msgs m,
 Proof. exact model_elements. Qed.
 Print Assumptions C16_model_first_appearance.
 
+(* THE WHOLE TEMPLATE.  For every state-machine model m, every first-filter dictionary over the first-filter tags and every
+   template of the grammar (text lines and any number of per-element / per-signature blocks of any kinds, in any order) that
+   is admitted for the model's element lists: the file written by smgen.Generate's pipeline (phases and the 15 expander
+   stages in the order the translator read from the source) is the reference expansion. *)
+Theorem C16_engine_is_ref : forall m dict t,
+  dict_ok dict = true -> in_grammar16 t = true -> wf_elements16 t (elements_of_model m) = true ->
+  engine16 m dict t = Some (ref16 (elements_of_model m) t).
+Proof. exact engine16_is_ref. Qed.
+Print Assumptions C16_engine_is_ref.
+
+(* ... and with the element lists read off the transition table in first-appearance order *)
+Theorem C16_engine_is_ref_table : forall tt structs protos msgs m dict t,
+  tt_model tt structs protos msgs = Some m -> dict_ok dict = true -> in_grammar16 t = true ->
+  wf16_rows tt structs protos msgs t = true ->
+  engine16 m dict t = Some (ref16_rows tt structs protos msgs t).
+Proof. exact engine16_is_ref_table. Qed.
+Print Assumptions C16_engine_is_ref_table.
+
+Definition ex16 : template16 :=
+  [Text "// guards first"; Block KGuard "    " "  " [[Lit "g "; Tag "GUARDNAME" None; Lit " "; Tag "NUM" None]];
+   Text "	x"; SigBlock "" "" [[Tag "actionName" None; Lit "("; Tag "EVENTNAME" None; Lit ")"]];
+   Block KState "" "" [[Lit "  "; Tag "ALPH" None; Lit " "; Tag "STATE_NAME" None]; [Lit "  -"]];
+   Block KGuard "	" "" [[Tag "guardName" None]]; Text "// end"].
 Example C16_block_is_ref_nonvacuous :
   let body := [[Lit "  "; Tag "NUM" None; Tag "ALPH" None; Lit " "; Tag "STATENAME" None; Lit " "; Tag "stateName" None; Lit " "; Tag "STATE_NAME" None]] in
   forallb (body_line_ok (keys_of KState)) body = true
@@ -138,3 +162,10 @@ Example C16_nonvacuous :
                    ++ "  2c StatePlay statePlay state_play" ++ nl_str ++ "// end" ++ nl_str)%string).
 Proof. split; vm_compute; reflexivity. Qed.
 Print Assumptions C16_nonvacuous.
+
+Example C16_engine_is_ref_nonvacuous :
+  in_grammar16 ex16 = true /\ wf16_rows cd_rows [] [] [] ex16 = true
+  /\ option_map (fun m => engine16 m [] ex16) (tt_model cd_rows [] [] []) = Some (Some (ref16_rows cd_rows [] [] [] ex16))
+  /\ String.length (ref16_rows cd_rows [] [] [] ex16) = 267.
+Proof. split; [|split; [|split]]; vm_compute; reflexivity. Qed.
+Print Assumptions C16_engine_is_ref_nonvacuous.
